@@ -218,9 +218,10 @@ fn run(input: RunInput) -> ScenFuture {
             match res {
                 Ok(p) => {
                     if let Some(x) = expect {
-                        w.check(*p == x, "dial-returned-other-than-expected-identity", key.clone(), || format!("call {i} expected {} and returned Ok({})", w.pname(&x), w.pname(p)));
+                        // (byte for byte: not through the library's own notion of equality)
+                        w.check(p.0 == x.0, "dial-returned-other-than-expected-identity", key.clone(), || format!("call {i} expected {} and returned Ok({})", w.pname(&x), w.pname(p)));
                     }
-                    w.check(holder(t) == Some(*p), "dial-succeeded-with-identity-the-endpoint-does-not-hold", key.clone(), || {
+                    w.check(holder(t).map(|h| h.0) == Some(p.0), "dial-succeeded-with-identity-the-endpoint-does-not-hold", key.clone(), || {
                         format!("call {i} to {t:?} returned Ok({}) but the endpoint there holds {:?}", w.pname(p), holder(t).map(|h| w.pname(&h)))
                     });
                     w.check(announced_c.contains(p) || *listed_now, "dial-ok-but-never-listed", key.clone(), || format!("call {i} returned Ok({}) but the caller never listed or announced that peer before the return", w.pname(p)));
